@@ -1914,7 +1914,7 @@ class MatlabWrapper(CheckMixin, FormatMixin):
         content = ""
         modules = {}
         for file in files:
-            with open(file, 'r') as f:
+            with open(file, 'r', encoding='UTF-8') as f:
                 # Keep files apart: one that ends in a `//` comment without a
                 # newline must not swallow the first line of the next.
                 content += f.read() + "\n"
